@@ -37,9 +37,8 @@ func c05Rules(p *core.Prog, r *core.Run) {
 	// --- P1
 	clientHelloGrammar(p, r, "C05.P1")
 	// the hello that is passed on is the record as it arrived: whole
-	if rr := p.Func(Ech, "readRecord"); rr != nil {
-		fullReads(p, r, rr, "C05.P1.record")
-	}
+	// (its length is the 16 bits of the header; every valid record is accepted)
+	recordLimit(p, r, m, "C05.P1.record")
 
 	// --- P2: who may write a clientHello
 	chType := m.fCH["Extensions"]
@@ -501,6 +500,7 @@ func c05SniAlpn(p *core.Prog, r *core.Run, m *echModel, rule string) {
 		base := p.X(c.Call.Args[0])
 		okBase := base.Op == "field" && base.Obj == m.fCH["ALPNProtos"]
 		okElem := false
+		var rdCall *ssa.Call
 		if sl, ok := c.Call.Args[1].(*ssa.Slice); ok {
 			if al, ok := sl.X.(*ssa.Alloc); ok {
 				for _, ref := range *al.Referrers() {
@@ -509,6 +509,9 @@ func c05SniAlpn(p *core.Prog, r *core.Run, m *echModel, rule string) {
 							if s2, ok := r2.(*ssa.Store); ok {
 								v := p.X(s2.Val)
 								okElem = v.Op == "conv" && v.Name == "string" && outOf(v.Args[0], "(*cryptobyte.String).ReadUint8LengthPrefixed") != nil
+								if okElem {
+									rdCall, _ = outOf(v.Args[0], "(*cryptobyte.String).ReadUint8LengthPrefixed").Val.(*ssa.Call)
+								}
 							}
 						}
 					}
@@ -516,6 +519,22 @@ func c05SniAlpn(p *core.Prog, r *core.Run, m *echModel, rule string) {
 			}
 		}
 		r.Check(rule, "parseExtensions:ALPN", okBase && okElem && typeFact(p.Facts(st.Block()), "16"), p.InstrPos(st), "ALPNProtos = append(ALPNProtos, string(protocol_name)) exactly as read, in extension 16")
+		// every name read is listed: nothing but the success of the read stands
+		// between the read and the append
+		if rdCall != nil {
+			base := map[string]bool{}
+			for _, f := range p.Facts(rdCall.Block()) {
+				base[f.String()] = true
+			}
+			extra := ""
+			for _, f := range p.Facts(st.Block()) {
+				if base[f.String()] || (f.Op == "true" && f.L != nil && f.L.Val == ssa.Value(rdCall)) {
+					continue
+				}
+				extra = f.String()
+			}
+			r.Check(rule, "parseExtensions:ALPN-every-name", extra == "", p.InstrPos(st), "every protocol name read is appended (a condition that stands between: %s)", extra)
+		}
 	}
 	r.Check(rule, "parseExtensions:ALPN-site", n == 1, p.Pos(fn.Pos()), "one place appends to ALPNProtos (found %d)", n)
 	// ... and stays as read: nothing in the package reorders, dedups or edits
